@@ -13,7 +13,7 @@ import random
 
 from . import common
 
-MODULES = ["CoapVerif.Props.C12", "CoapVerif.Props.C12Paths"]
+MODULES = ["CoapVerif.Props.C12", "CoapVerif.Props.C12Paths", "CoapVerif.Props.C12PrepareWrite"]
 
 
 PATHS_OBS = ["basic", "cancelcb", "hijack", "getreq"]
@@ -48,6 +48,17 @@ def scenarios(ctx):
         S.append("scn udp blockwise %d" % n)
     for i in range(40 if thorough else 8):
         S.append("scn udp mix %d %d" % (rng.randrange(1 << 30), rng.choice([4, 8, 16])))
+    # request bodies that fail while the library copies them (the retransmission copy of a confirmable message in
+    # prepareWriteMessage, the block of a block-wise transfer, the datagram): on Read at once / after k bytes, on the k-th Seek;
+    # confirmable and non-confirmable; Post / Do / WriteMessage; block-wise off and on; bodies of one and of several blocks
+    for bw in ["badbody", "badbodybw"]:
+        for fault in ["read0", "read5", "read20", "seek0", "seek1", "seek2", "seek3"]:
+            for typ in ["con", "non"]:
+                for api in ["post", "do", "write"]:
+                    if api == "post" and typ == "non":
+                        continue
+                    for size in [10, 40]:
+                        S.append("scn udp %s %s %s %s %d" % (bw, fault, typ, api, size))
     # the same situations on real connections (hook h1), under the monitor: a notification inside its callback while the
     # observation is cancelled, block-wise notifications, a Do given up mid-transfer with a late answer, the expiry sweep
     # around the last block of a stalled upload
@@ -150,7 +161,8 @@ def explore(ctx, art):
                        "housekeeping ticks; observation callbacks (cancel while notifications are in their callbacks, hijacked notification, copies "
                        "for the block-wise layer) and block-wise paths (Do upload / abandoned mid-transfer / download, reassembly with an expiry "
                        "sweep during the append, response in blocks, block-wise notification both ways, WriteMessage) over a tracking pool, "
-                       "compared step by step with the path programs. evaluations = lifecycle events checked; non-trivial trace = contains an application hold and a release; "
+                       "compared step by step with the path programs; request bodies that fail on Read (at once, after k bytes) or on the k-th Seek, "
+                       "confirmable / non-confirmable, Post / Do / WriteMessage, block-wise off and on, one and several blocks. evaluations = lifecycle events checked; non-trivial trace = contains an application hold and a release; "
                        "distinct by the exact trace." % (3 if ctx.tier == "thorough" else 2))
     for l, o in list(zip(lines, impl))[:2]:
         ctx.sample({"scenario": l, "trace": o[:400]})
